@@ -370,6 +370,34 @@ def check_backward(w, rec, st, how):
             w.violation(inv, rec, "gradient differs from the %s: %s" % (
                 "history-free reference" if how == "recipe" else
                 "gradient through a module constructed in that precision", m))
+            return
+    # C16 (iv) in the backward direction: a non-contiguous gradient handed to
+    # backward (`y.sum().backward()` passes a stride-0 broadcast) behaves like
+    # its contiguous copy
+    if how == "direct" and rec["op"].get("cot_layout", "contig") != "contig":
+        ocf, valf, leavesf = ref_record(None, fwd, "recipe")
+        if ocf != "ok":
+            return
+        self_sel = select_backward(torch, valf, leavesf, rec["op"])
+        ocs, gs = _run(lambda: torch.autograd.grad(self_sel[0], self_sel[2], self_sel[1],
+                                                   allow_unused=True)) if self_sel else ("none", None)
+        ocf, valf, leavesf = ref_record(None, fwd, "recipe")
+        selc = select_backward(torch, valf, leavesf, rec["op"], contiguous=True)
+        if self_sel is None or selc is None:
+            return
+        occ, gc_ = _run(lambda: torch.autograd.grad(selc[0], selc[2], selc[1], allow_unused=True))
+        st["strided"] += 1
+        if ocs != occ:
+            w.violation("D4-strided", rec, "backward with a %s gradient: %s, with its contiguous copy: %s"
+                        % (rec["op"]["cot_layout"], ocs, occ))
+        elif occ == "ok":
+            sc = snap(list(gc_))
+            in_dt = DTNAME.get(selc[1][0].dtype, "float32")
+            m = compare(snap(list(gs)), sc, "tol", 16 * EPS.get(in_dt, EPS["float32"]),
+                        scale=max(1e-30, max_abs(sc)))
+            if m:
+                w.violation("D4-strided", rec, "backward with a %s gradient vs its contiguous copy: %s"
+                            % (rec["op"]["cot_layout"], m))
 
 
 def run_canaries(w, st):
